@@ -4,6 +4,7 @@ import (
 	"bytes"
 	"context"
 	"encoding/json"
+	"errors"
 	"fmt"
 	"io"
 	"mime/multipart"
@@ -21,18 +22,19 @@ import (
 // reading per decoder family (part "decode").
 
 type c06Case struct {
-	Part      string   `json:"part"`
-	DeclText  []string `json:"declText"`
-	HdrText   string   `json:"hdrText"`
-	Required  bool     `json:"required"`
-	BodyKey   any      `json:"bodyKey"`
-	Empty     bool     `json:"empty"`
-	Family    string   `json:"family"`
-	Schema    string   `json:"schema"`
-	V         any      `json:"v"`
-	ExcludeRO bool     `json:"excludeRO"`
-	Enc       string   `json:"enc"`
-	Clen      string   `json:"clen"`
+	Part        string   `json:"part"`
+	DeclText    []string `json:"declText"`
+	HdrText     string   `json:"hdrText"`
+	Required    bool     `json:"required"`
+	BodyKey     any      `json:"bodyKey"`
+	Empty       bool     `json:"empty"`
+	Family      string   `json:"family"`
+	Schema      string   `json:"schema"`
+	V           any      `json:"v"`
+	ExcludeRO   bool     `json:"excludeRO"`
+	Enc         string   `json:"enc"`
+	Clen        string   `json:"clen"`
+	SetDefaults bool     `json:"setDefaults"`
 }
 
 func renderMT(m any) string {
@@ -77,7 +79,11 @@ func c06Run(c *Case) []any {
 		ct = tc.HdrText
 	} else {
 		props := map[string]any{"l": map[string]any{"type": "array", "items": intS}, "ls": map[string]any{"type": "array", "items": map[string]any{"type": "string"}}, "n": intS,
-			"ro": map[string]any{"type": "string", "readOnly": true}, "s": map[string]any{"type": "string"}}
+			"ro": map[string]any{"type": "string", "readOnly": true}, "s": map[string]any{"type": "string"},
+			"u1": map[string]any{"allOf": []any{intS}}, "u3": map[string]any{"enum": []any{"a", "b"}}}
+		if tc.Schema == "S3" {
+			props["ro"] = map[string]any{"type": "string", "readOnly": true, "default": "d"}
+		}
 		req := []any{"ro"}
 		if tc.Schema == "S1" {
 			req = []any{"n", "ro"}
@@ -188,7 +194,7 @@ func c06Run(c *Case) []any {
 		panic("harness: c06 route: " + err.Error())
 	}
 	input := &openapi3filter.RequestValidationInput{Request: req, PathParams: pp, Route: route,
-		Options: &openapi3filter.Options{ExcludeReadOnlyValidations: tc.ExcludeRO, SkipSettingDefaults: true}}
+		Options: &openapi3filter.Options{ExcludeReadOnlyValidations: tc.ExcludeRO, SkipSettingDefaults: !tc.SetDefaults}}
 	var verr error
 	if p, _ := guard(func() {
 		verr = openapi3filter.ValidateRequestBody(context.Background(), input, route.Operation.RequestBody.Value)
@@ -196,6 +202,11 @@ func c06Run(c *Case) []any {
 		line["verdict"] = "panic"
 	} else {
 		line["verdict"] = errClass(verr)
+		line["reason"] = ""
+		var re *openapi3filter.RequestError
+		if errors.As(verr, &re) {
+			line["reason"] = re.Reason // the library's own fixed reason strings ("rewriting failed", "doesn't match schema", ...)
+		}
 	}
 	// the decoded value, through the public decoder registry
 	if tc.Part == "decode" {
